@@ -627,3 +627,25 @@ def content_owner_keys(fn, terms):
             if x[0] == "field" and x[1].endswith("Item.content"):
                 out.add(item_key(fn, x[2]))
     return out
+
+
+def loop_blocks(fn, header):
+    """natural loop of `header`: the header plus every block that reaches one of its back edges (a predecessor the header
+    dominates) without passing through the header. Inner loops are included, enclosing loops are not."""
+    cfg = fn.cfg()
+    body = {header}
+    todo = [u for u in cfg.pred[header] if cfg.dominates(header, u)]
+    while todo:
+        x = todo.pop()
+        if x in body:
+            continue
+        body.add(x)
+        todo.extend(cfg.pred[x])
+    return body
+
+
+def loop_exit_edges(fn, header):
+    """edges that leave the loop through `header` on the normal CFG: [(from, to)]."""
+    cfg = fn.cfg()
+    body = loop_blocks(fn, header)
+    return [(u, w) for u in sorted(body) for w in cfg.succ[u] if w not in body]
